@@ -43,6 +43,12 @@ def install(I):
     t["numpy.matmul"] = n_matmul
     t["numpy.dot"] = n_matmul
     t["numpy.linalg.multi_dot"] = n_multi_dot
+    t["numpy.column_stack"] = n_column_stack
+    t["numpy.linspace"] = n_linspace
+    t["numpy.diff"] = n_diff
+    t["numpy.linalg.norm"] = n_norm
+    t["numpy.ones"] = n_ones
+    t["numpy.vstack"] = n_vstack
     t["scipy.linalg.inv"] = n_inv
     t["numpy.linalg.inv"] = n_inv
     t["DefaultFormatter.number"] = f_number
@@ -69,7 +75,7 @@ def _kwclean(kwargs):
 
 def _list_items(I, v):
     v = I.force(v)
-    if isinstance(v, (Tup, NT)):
+    if isinstance(v, (Tup, NT, ArrV)):
         return list(v.items)
     if isinstance(v, IterV):
         return list(v.items)
@@ -315,7 +321,9 @@ def b_int(I, fv, args, kwargs, node):
             return n
         if n.p.is_const():
             return Const(int(n.p.const_value()))
-        return Num(app("int", n.p), True)
+        r = app("int", n.p)
+        _mark_int(I, r)
+        return Num(r, True)
     s = I.strval(v)
     if s is not None:
         try:
@@ -342,7 +350,10 @@ def _minmax(name):
             if all(n.p.is_const() for n in nums):
                 f = max if name == "max" else min
                 return Num(Poly.const(f(n.p.const_value() for n in nums)), all(n.is_int for n in nums))
-            return Num(app(name, *[n.p for n in nums]), all(n.is_int for n in nums))
+            r = app(name, *[n.p for n in nums])
+            if all(n.is_int for n in nums):
+                _mark_int(I, r)
+            return Num(r, all(n.is_int for n in nums))
         return Unk(f"{name}({', '.join(I.tag(x) for x in items)})")
     return h
 
@@ -688,6 +699,77 @@ def b_shallowcopy(I, fv, args, kwargs, node):
 
 
 # ------------------------------------------------------------------ math
+def _mark_int(I, p: Poly):
+    sm = p.single_monomial()
+    if sm is not None and len(sm[0]) == 1 and sm[0][0][1] == 1:
+        I.int_symbols.add(sm[0][0][0])
+
+
+def mk_app(I, name, ps, even=False):
+    """Uninterpreted application as a canonical symbol; its structure is kept in I.apps."""
+    p = even_app(name, *ps) if even else app(name, *ps)
+    sm = p.single_monomial()
+    if sm is not None and len(sm[0]) == 1:
+        sym = sm[0][0][0]
+        if sym not in I.apps:
+            # arguments as canonicalised by even_app: re-derive from the chosen sign
+            args = []
+            for a in ps:
+                if even and a.terms and a.terms[min(a.terms)] < 0:
+                    a = -a
+                args.append(a)
+            I.apps[sym] = (name, tuple(args))
+    return p
+
+
+def _two_pi_multiple(I, rest: Poly) -> bool:
+    """Is `rest` an integer multiple of 2*pi (for integer values of the integer symbols)?"""
+    if rest.is_zero():
+        return True
+    q = rest.coeff_of("pi")
+    if not (Poly.sym("pi") * q - rest).is_zero() or "pi" in q.symbols():
+        return False
+    for m, c in q.terms.items():
+        if (c / 2).denominator != 1:
+            return False
+        for sym, e in m:
+            if sym not in I.int_symbols or e < 0:
+                return False
+    return True
+
+
+def _trig(I, fname, A: Poly):
+    """cos/sin with the identities the tracer's closed forms rely on:
+    cos(arctan2(y, x) + 2*pi*k) = x / hypot(x, y), sin(...) = y / hypot(x, y)."""
+    for sign in (1, -1):
+        B = A if sign == 1 else -A
+        for sym in sorted(B.symbols()):
+            ent = I.apps.get(sym)
+            if ent is None or ent[0] != "arctan2":
+                continue
+            c = B.coeff_of(sym)
+            if not (c - Poly.const(1)).is_zero():
+                continue
+            if not _two_pi_multiple(I, B - Poly.sym(sym)):
+                continue
+            y, x = ent[1]
+            h = mk_app(I, "hypot", [x, y], even=True)
+            if h.is_zero():
+                continue
+            val = (x if fname == "cos" else y) * h.inverse()
+            if fname == "sin" and sign == -1:
+                val = -val
+            return val
+    if _two_pi_multiple(I, A):
+        return Poly.const(1 if fname == "cos" else 0)
+    if fname == "cos":
+        return mk_app(I, "cos", [A], even=True)
+    # sin is odd: canonicalise the sign of the argument
+    if A.terms and A.terms[min(A.terms)] < 0:
+        return -mk_app(I, "sin", [-A])
+    return mk_app(I, "sin", [A])
+
+
 def make_math(name):
     canon = {"atan2": "arctan2"}.get(name, name)
 
@@ -710,11 +792,14 @@ def make_math(name):
                     return Num(Poly.const(int(r)))
             except Exception:
                 pass
+        if canon in ("cos", "sin"):
+            return Num(_trig(I, canon, ps[0]))
         if canon in ("hypot",):
-            return Num(even_app(canon, *ps))
-        if canon == "cos":
-            return Num(even_app(canon, *ps))
-        return Num(app(canon, *ps), canon in ("ceil", "floor"))
+            return Num(mk_app(I, canon, ps, even=True))
+        r = mk_app(I, canon, ps)
+        if canon in ("ceil", "floor"):
+            _mark_int(I, r)
+        return Num(r, canon in ("ceil", "floor"))
     return h
 
 
@@ -777,6 +862,66 @@ def n_multi_dot(I, fv, args, kwargs, node):
         a = I.force(a)
         out += a.factors if isinstance(a, MatProd) else (a,)
     return MatProd(out)
+
+
+def n_column_stack(I, fv, args, kwargs, node):
+    items = _list_items(I, args[0]) if args else None
+    if items is not None and all(I.as_num(x) is not None for x in items if not isinstance(x, (Opt, Choice))):
+        return Tup(tuple(I.as_num(x) for x in items))       # one sample (scalar parameter)
+    return Unk(f"column_stack({I.tag(args[0]) if args else ''})", "array")
+
+
+def n_linspace(I, fv, args, kwargs, node):
+    kw = _kwclean(kwargs)
+    a = list(args) + [None] * 3
+    return LinV(a[0], a[1], a[2] if a[2] is not None else kw.get("num", Const(50)), kw.get("endpoint", TRUE))
+
+
+def n_diff(I, fv, args, kwargs, node):
+    v = I.force(args[0])
+    if isinstance(v, ArrV):
+        return ArrV(tuple(Unk(f"diff({I.tag(b)},{I.tag(a)})", "row") for a, b in zip(v.items, v.items[1:])))
+    return Unk(f"diff({I.tag(v)})", "array")
+
+
+def n_norm(I, fv, args, kwargs, node):
+    v = I.force(args[0])
+    if isinstance(v, ArrV):
+        out = []
+        for i, x in enumerate(v.items):
+            sym = f"norm({I.tag(x)})"
+            I.positive_syms.add(sym)
+            out.append(Num(Poly.sym(sym)))
+        return ArrV(tuple(out))
+    n = _num(I, v)
+    if n is not None:
+        return Num(even_app("abs", n.p))
+    return Unk(f"norm({I.tag(v)})", "array")
+
+
+def n_ones(I, fv, args, kwargs, node):
+    n = I.const_int(args[0]) if args else None
+    kw = _kwclean(kwargs)
+    isbool = "bool" in I.tag(kw.get("dtype", NONE))
+    if n is not None and n <= 64:
+        return I.alloc(AList([TRUE if isbool else Const(1.0) for _ in range(n)]))
+    return Unk(f"ones({I.tag(args[0]) if args else ''})", "array")
+
+
+def n_vstack(I, fv, args, kwargs, node):
+    items = _list_items(I, args[0]) if args else None
+    if items is None:
+        return Unk("vstack(?)", "array")
+    rows = []
+    for x in items:
+        x = I.force(x)
+        if isinstance(x, ArrV):
+            rows += list(x.items)
+        elif isinstance(x, (Tup, NT)):
+            rows.append(x)
+        else:
+            return Unk(f"vstack({I.tag(args[0])})", "array")
+    return ArrV(tuple(rows))
 
 
 def n_inv(I, fv, args, kwargs, node):
